@@ -1,5 +1,6 @@
 """C14 — SHOW of a remembered query equals the live query, each event once: ordering / gate clauses only."""
 from .util import *
+import json
 
 EXPLANATION = """
 Claimed narrowly. Decides ordering/gate clauses; does NOT decide equality with the live query over all histories (same-second arrivals, compaction moving materialised rows).
@@ -15,8 +16,8 @@ inserted on every path that reaches build_delta_command (without them the zone s
 (g) the watermark is the MAXIMUM over everything materialised, whatever order the batches arrive in: MaterializedSink::append and bootstrap_from_manifest change self.high_water only through
 HighWaterMark::advance (never by assigning one frame's mark); delta batches arrive memtable-first and shard by shard, so 'the last frame' is not the newest event.
 """
-FLOOR = 8
-REQUIRED = ["C14.a", "C14.b", "C14.c", "C14.d1", "C14.d2", "C14.e", "C14.f", "C14.g"]
+FLOOR = 10
+REQUIRED = ["C14.a", "C14.b", "C14.c", "C14.d1", "C14.d2", "C14.e", "C14.f", "C14.g", "C14.h", "C14.i"]
 
 
 def run(ctx):
@@ -203,3 +204,61 @@ def run(ctx):
                 bad.append(("watermark-not-advanced:%s" % nm.split("::")[-1], "%s never advances self.high_water" % nm, None))
         return bad
     ctx.run("C14.g", "K4 EFFECT", "MaterializedSink::append / bootstrap_from_manifest", "the high-water mark is the maximum over all frames", g_)
+
+    def h_(inst):
+        """Watermarks are compared as (timestamp, event id) pairs. The frame writer's header keeps the maximum timestamp and the maximum
+        event id of a batch as two independent numbers; combined they may form a pair no row has (ids of two shards around a second
+        boundary) and a row below that pair is skipped by every later SHOW. The mark the store records for a frame must be computed
+        from the rows pairwise: the `high_water_mark` of the meta pushed into the manifest is assigned from a function that walks
+        the timestamp and event-id columns together."""
+        bad = []
+        b = F.fn("MaterializedStore::append_batch")
+        pf = one(b, r"ManifestState::push_frame$")
+        wr = one(b, r"FrameWriter::write$")
+        assigns = []
+        for i_ in sorted(b.live_blocks()):
+            for st in b.blocks[i_]["s"]:
+                if st.get("a") and any(isinstance(e, str) and e == ".high_water_mark" for e in st["a"]) and (st.get("v") or {}).get("r") == "use":
+                    assigns.append((i_, st))
+        pairwise = []
+        for i_, st in assigns:
+            for l in b.origins(st["v"]["o"]):
+                if l[0] == "call" and F.has(l[1]):
+                    cal = F.fn_exact(l[1])
+                    fam = [cal] + [F.fn_exact(k) for k in F.keys() if k.startswith(cal.key + "::{closure")]
+                    if any(re.search(r"Iterator::zip$", c.nname) for f_ in fam for c in f_.calls if not c.cleanup) and any(c.nname.endswith("HighWaterMark::new") for f_ in fam for c in f_.calls if not c.cleanup):
+                        if b.dominates_edge((wr.bb, wr.to), i_) and pf.bb in set(b.reach(i_)):
+                            pairwise.append(i_)
+        inst.sites = [sp(b, wr.bb), sp(b, pf.bb)] + [sp(b, x) for x in pairwise]
+        if not pairwise:
+            bad.append(("frame-mark-from-independent-maxima", "MaterializedStore::append_batch records the frame writer's mark (maximum timestamp and maximum event id tracked separately) without replacing it by the largest (timestamp, event id) row of the batch: a mark no row has makes later SHOWs skip rows below it", sp(b, pf.bb)))
+        else:
+            # on every path to push_frame on which the batch yields a mark
+            pass
+        return bad
+    ctx.run("C14.h", "K7 PROV", "MaterializedStore::append_batch", "a frame's high-water mark is a (timestamp, event id) pair one of its rows has", h_)
+
+    def i_(inst):
+        """The mark of a frame is read from the batch column NAMED `timestamp`, while SHOW applies the mark to the query's time field
+        (REMEMBER ... USING <field>): with a payload time field the mark and the delta filter speak different units."""
+        bad = []
+        hits = []
+        for k in sorted(F.keys()):
+            if k.startswith("bin:") or not re.search(r"materialize::store::(codec::encoder|materialized_store)::", k):
+                continue
+            b = F.fn_exact(k)
+            for c in b.calls:
+                if c.cleanup:
+                    continue
+                if not re.search(r"::eq$|::ne$", c.nname):
+                    continue
+                for a_ in c.args:
+                    if ("k" in a_ and str(a_["k"]).strip('"') == "timestamp") or any(l[0] == "const" and l[1].strip('"') == "timestamp" for l in b.origins(a_)):
+                        hits.append((b, c))
+        orch = [k for k in F.keys() if re.search(r"show::orchestrator::", k) and not k.startswith("bin:")]
+        uses_tf = any(".time_field" in json.dumps(F.fn_exact(k).rec.get("blocks")) for k in orch)
+        inst.sites.append("mark column looked up by the constant name `timestamp`: %d site(s); SHOW derives the delta's time column from the query's time field: %s" % (len(hits), uses_tf))
+        if hits and uses_tf:
+            bad.append(("mark-column-fixed-name", "the frame high-water mark is computed from the column named `timestamp` while SHOW applies it to the remembered query's USING field", sp(hits[0][0], hits[0][1].bb)))
+        return bad
+    ctx.run("C14.i", "K11 SIB", "materialize::store::codec::encoder vs show::orchestrator", "the mark and the delta filter refer to the same time column", i_)
